@@ -7,13 +7,12 @@
    so they are flat texts (StringBuf.is_empty = "the concatenation is empty").
 
    Python facts reproduced literally:
-   * `_State.annot_cref = 3` is an ALIAS of `_State.data_cref = 3` (Enum semantics).  `state is
-     _State.data_cref` is therefore true after `state = _State.annot_cref`: an `&` in a start-tag
-     annotation continues in the *data* character-reference branch (which appends to the tag name in
-     `result` and then returns to the data state).  The `annot_cref` branch of the source is dead code,
-     so there is no SAnnotCref state below.
-   * the character-reference buffer excludes the terminating `;`, html.unescape is applied to
-     "&name" (no semicolon) and an undecodable reference is copied WITHOUT its `;`.
+   * a character reference in the data state collects everything up to the next `;` in `buffer` (which starts as
+     "&"); html.unescape is applied to buffer + ";" and the result appended to `result` (an undecodable reference
+     thus stays as it was written, with its `;`).  At end of input the buffer is copied undecoded.
+   * a character reference in a start-tag annotation (`_State.annot_cref`, its own Enum value since 541c2c8)
+     collects into its own buffer `cref`; html.unescape(cref + ";") is appended to the annotation buffer; `>` or
+     end of input copy `cref` undecoded and are then processed by the annotation state (`continue`).
    * `buffer` is reset per token only; a character reference that decodes to the empty string leaves
      `result` empty and a stale `buffer`, which then leaks into class names / annotations.
    * `c is ord(".")` is small-int identity, i.e. equality.
@@ -26,7 +25,7 @@ Inductive token :=
 | TEnd (tag : text)
 | TTs (timestamp : text).
 
-Inductive tstate := SData | STag | SCref | SStart | SAnnot | SClass | SEnd | STs.
+Inductive tstate := SData | STag | SCref | SStart | SAnnot | SAnnotCref (cref : text) | SClass | SEnd | STs.
 
 (* ---------------------------------------------------------------- small text helpers *)
 Definition mem_z (c : Z) (l : list Z) : bool := existsb (Z.eqb c) l.
@@ -52,10 +51,9 @@ Fixpoint assoc_text (k : text) (l : list (text * text)) : option text :=
 Fixpoint assoc_z (k : Z) (l : list (Z * Z)) : option Z :=
   match l with [] => None | (a, v) :: l' => if k =? a then Some v else assoc_z k l' end.
 
-(* ---------------------------------------------------------------- html.unescape on "&…" without ';'
-   html._charref = &(#[0-9]+;?|#[xX][0-9a-fA-F]+;?|[^\t\n\f <&#;]{1,32};?) and html._replace_charref.
-   The optional ';' is transcribed too, but the html5 table holds only the names without ';': the
-   model is exact on every argument that contains no ';', which is all the tokenizer ever passes. *)
+(* ---------------------------------------------------------------- html.unescape
+   html._charref = &(#[0-9]+;?|#[xX][0-9a-fA-F]+;?|[^\t\n\f <&#;]{1,32};?) and html._replace_charref, with the
+   complete html5 table (names with and without the trailing ';'). *)
 Definition dec_value (ds : text) : Z := fold_left (fun a c => a * 10 + (c - 48)) ds 0.
 Definition hex_value (ds : text) : Z := fold_left (fun a c => a * 16 + hexval c) ds 0.
 
@@ -76,14 +74,15 @@ Fixpoint longest_prefix (x : nat) (s : text) : option text :=
   match x with
   | O | S O => None
   | S x' =>
-    match assoc_text (take_n x s) html5_legacy with
+    match assoc_text (take_n x s) html5_names with
     | Some v => Some (v ++ drop_n x s)
     | None => longest_prefix x' s
     end
   end.
 
+(* s is the name with its optional ';' *)
 Definition named_charref (s : text) : text :=
-  match assoc_text s html5_legacy with
+  match assoc_text s html5_names with
   | Some v => v
   | None =>
     match longest_prefix (Nat.pred (length s)) s with
@@ -118,9 +117,7 @@ Fixpoint unescape_fuel (fuel : nat) (s : text) : text :=
         else
           let rest := drop_n (length nm) r in
           match rest with
-          | 59 :: rest' =>
-            (* name followed by ';': only the ';'-less table is available (outside the tokenizer's use) *)
-            named_charref nm ++ unescape_fuel f rest'
+          | 59 :: rest' => named_charref (nm ++ [59]) ++ unescape_fuel f rest'
           | _ => named_charref nm ++ unescape_fuel f rest
           end
       end
@@ -155,6 +152,7 @@ Fixpoint scan (st : tstate) (res buf : text) (cls : list text) (s : text) {struc
     | SStart => (TStart res None None, [])
     | SClass => (TStart res (Some (cls ++ [buf])) None, [])
     | SAnnot => (TStart res (Some cls) (Some (norm_annot buf)), [])
+    | SAnnotCref cref => (TStart res (Some cls) (Some (norm_annot (buf ++ cref))), [])   (* buffer.extend(cref); continue *)
     | SEnd => (TEnd res, [])
     | STs => (TTs res, [])
     end
@@ -165,9 +163,7 @@ Fixpoint scan (st : tstate) (res buf : text) (cls : list text) (s : text) {struc
       else if c =? 60 then (if is_nil res then scan STag res buf cls s' else (TString res, s))
       else scan SData (res ++ [c]) buf cls s'
     | SCref =>
-      if c =? 59 then
-        let decoded := unescape buf in
-        scan SData (if text_eqb decoded buf then res ++ buf else res ++ decoded) buf cls s'
+      if c =? 59 then scan SData (res ++ unescape (buf ++ [59])) buf cls s'
       else scan SCref res (buf ++ [c]) cls s'
     | STag =>
       if tag_ws c || (c =? 10) then scan SAnnot res buf cls s'
@@ -189,9 +185,13 @@ Fixpoint scan (st : tstate) (res buf : text) (cls : list text) (s : text) {struc
       else if c =? 62 then (TStart res (Some (cls ++ [buf])) None, s')
       else scan SClass res (buf ++ [c]) cls s'
     | SAnnot =>
-      if c =? 38 then scan SCref res [38] cls s'      (* annot_cref IS data_cref *)
+      if c =? 38 then scan (SAnnotCref [38]) res buf cls s'
       else if c =? 62 then (TStart res (Some cls) (Some (norm_annot buf)), s')
       else scan SAnnot res (buf ++ [c]) cls s'
+    | SAnnotCref cref =>
+      if c =? 59 then scan SAnnot res (buf ++ unescape (cref ++ [59])) cls s'
+      else if c =? 62 then (TStart res (Some cls) (Some (norm_annot (buf ++ cref))), s')   (* extend; continue; then `>` *)
+      else scan (SAnnotCref (cref ++ [c])) res buf cls s'
     | SEnd =>
       if c =? 62 then (TEnd res, s') else scan SEnd (res ++ [c]) buf cls s'
     | STs =>
